@@ -200,6 +200,11 @@ def gen_c02(tier, seed):
             d["cbase"] = rng.choice([7, 60, 500])
         if rng.random() < 0.05:
             d["test"] = 1
+        elif "s" in d and rng.random() < 0.25:
+            # a clock too coarse to see the sample: start and end readings are often identical
+            d["q"] = rng.choice([100, 10 ** 4, 10 ** 6])
+            d["cbase"] = rng.choice([0, 1, 3])
+            d["cstep"] = 0
         out.append(line(d))
     return out
 
@@ -449,6 +454,13 @@ def gen_c05(tier, seed):
                 d["caonly"] = rng.choice([1, 2, 3])
                 if not d["caops"]:
                     d["caops"] = "a64,d"
+            if rng.random() < 0.4:
+                # the time budget runs out while the sample size is still being tuned: what is reported are the samples of
+                # the last tuning round, at the size they really ran with
+                tick_ns = max(1, 10 ** 9 // d["freq"])
+                d["max"] = max(1, d["cbase"] * tick_ns * rng.choice([1, 2, 5, 11, 30, 70]) // max(1, 1000 // max(1, 10 ** 12 // d["freq"])))
+                d["skip"] = rng.choice([-1, -1, 1])
+                d["gcost"] = rng.choice([0, 0, 1000])
         out.append(line(d))
     return out
 
